@@ -1,7 +1,7 @@
 """Property registry: which arms decide which property, tiers, and evidence metadata."""
 from types import SimpleNamespace as NS
 
-from .checks import c19a, c15
+from .checks import c19a, c15, c16, c05s, c05h
 
 REAL_COMMON = ['all of elementpath (imported from /repo working tree)', 'CPython re/decimal/json/expat',
                'lxml', 'xmlschema', 'stdlib locale.setlocale/getlocale/normalize (Python level)']
@@ -46,4 +46,39 @@ register(
     EXPECTED_PROBES=[],
     ASSUMPTIONS=['same-key relation of the model: numeric by exact value (NaN=NaN), string/anyURI/untypedAtomic by '
                  'code points, other types by type+value; map keys are compared by same-key class, not representation'],
+)
+
+register(
+    ID='C16', LEVEL='exploration',
+    ARMS=[(c16, 1.0)],
+    TIERS={'quick': {'runs': 4000, 'wall_cap': 100, 'minimise_budget': 30},
+           'thorough': {'runs': 100000, 'wall_cap': 800, 'minimise_budget': 90}},
+    RULE='each run = one seeded history of operations on function items: typed random programs over the mini-language '
+         '(inline functions capturing let/for variables, function expressions inside loops, function items in '
+         'sequences/arrays/maps, named references, partial application, fold/for-each/filter/for-each-pair/apply/sort, '
+         'bounded self-application), Selectors evaluated repeatedly under different external bindings, and Python-level '
+         'calls on function items returned by earlier evaluations; oracle = reference interpreter with immutable '
+         'closures; non-trivial = at least 8 AST nodes; distinct = distinct operation list',
+    REAL=REAL_COMMON, STUB=['none needed: the simulated dimension is the call history on function items'],
+    EXPECTED_PROBES=['risk-flag:multi-env', 'risk-flag:partial', 'risk-flag:param-shadow'],
+    ASSUMPTIONS=['the reference interpreter implements XPath 3.1 semantics for exactly the generated constructs',
+                 'programs are well-typed by construction; a program the interpreter rejects is only required to raise'],
+)
+
+register(
+    ID='C05', LEVEL='exploration',
+    ARMS=[(c05h, 0.6), (c05s, 0.4)],
+    TIERS={'quick': {'runs': 1600, 'wall_cap': 100, 'minimise_budget': 30},
+           'thorough': {'runs': 40000, 'wall_cap': 800, 'minimise_budget': 90}},
+    RULE='arm c05h: each run = one seeded history (3-40 operations) of select / iter_select (opened, stepped, '
+         'interleaved, closed, abandoned) / token.evaluate over shared Selectors, tokens, 1-3 documents (ElementTree, '
+         'lxml, prebuilt node trees) and caller-owned variable values, with failing evaluations, clock jumps and '
+         'implicit-timezone changes; every operation is compared with a clean-room evaluation forked from the current '
+         'process and all inputs are snapshotted before/after. arm c05s: scoping programs over the mini-language judged '
+         'by a reference interpreter. non-trivial = at least 3 evaluations or generator steps (c05h) / 8 AST nodes (c05s); '
+         'distinct = distinct (operation shape, selector set) or operation list',
+    REAL=REAL_COMMON, STUB=['wall clock: every context is built with current_dt=<simulated instant>; clock jumps are operations'],
+    EXPECTED_PROBES=[],
+    ASSUMPTIONS=['the comparator is a fresh parse on a fresh context in a child forked from the current process',
+                 'identity-based values (generate-id) are compared by shape only'],
 )
